@@ -188,7 +188,7 @@ Qed.
 (* ---- spelling: the repaired check only looks at folded short forms ---- *)
 
 Definition strip_tag (a : tag) : tag :=
-  mkTag [] (t_shortf a) [] (t_tg a) (t_tl a) (t_base a) (t_basef a) (t_uniq a) (t_req a).
+  mkTag [] (t_shortf a) [] (t_tg a) (t_tl a) (t_base a) (t_basef a) (t_uniq a) (t_req a) (t_def a).
 Fixpoint strip (t : tree) : tree :=
   match t with T a => T (strip_tag a) | G l => G (map strip l) end.
 (* two annotations are respellings of each other when they agree after
@@ -388,7 +388,7 @@ Definition Half : mode := mkMode true false true.
 Definition s (x : list nat) : str := map N.of_nat x.
 (* a plain tag whose original text is its short form (values are lower-case here) *)
 Definition tg (short : str) (shortf : str) (orgf : str) : tree :=
-  T (mkTag short shortf orgf false false 0 0 [] []).
+  T (mkTag short shortf orgf false false 0 0 [] [] 0).
 Definition Red := tg (s [82;101;100]) (s [114;101;100]) (s [114;101;100]).
 Definition Blue := tg (s [66;108;117;101]) (s [98;108;117;101]) (s [98;108;117;101]).
 Definition Green := tg (s [71;114;101;101;110]) (s [103;114;101;101;110]) (s [103;114;101;101;110]).
